@@ -108,7 +108,7 @@ CHECKS = {
              "under weak fairness for all 2-thread x 2-call and 3-thread x 1-call programs, (b) emits EVERY interleaving of all pairs of "
              "one-call threads (and sampled 3-thread behaviours) as schedules that a deterministic scheduler replays on the real crate, "
              "(c) validates the recorded runs: each call's answer equals the sequential answer of an uncached twin, the identity of the "
-             "map stored per option set never changes, no deadlock. A broken variant of the model (insert overwrites) must violate "
+             "map stored per option set never changes, all map() answers on one cache - every thread, and sequential calls after the threads have joined - are one value, no deadlock. A broken variant of the model (insert overwrites) must violate "
              "WriteOnce in every run (non-vacuity). The index mutex of ReplaceSource is part of the model; refusal probes release threads the model says must wait (for a shard lock or the index mutex) and the monitors must still hold.",
         note=COMMON_NOTE + " Interleavings are at the granularity of the hook points (feature verif); the scheduler serialises threads, so weak-memory effects are outside. Schedules that the code does not follow are reported as MODEL-DRIFT, never as a violation.",
         technique="TLA+ concurrency model: TLC model checking + TLC-generated schedules replayed deterministically + TLC trace validation",
